@@ -205,6 +205,9 @@ type runner struct {
 	durable  int
 	pending  *dbm.State
 
+	opts *pebble.Options
+	extN int
+
 	stepIdx int
 	labels  map[string]bool
 	C       map[string]int
@@ -306,6 +309,7 @@ func (r *runner) open() (flow, error) {
 		r.lg = newLogger()
 		r.gate = &gate{in: r.inj, lg: r.lg}
 		opts := buildOptions(r.p.Opt, errorfs.Wrap(safeFS{r.mem}, r.gate), r.ev.listener(), r.lg)
+		r.opts = opts
 		var resume func()
 		if attempt == 1 {
 			resume = r.inj.pause()
@@ -605,6 +609,8 @@ func (r *runner) step(s Step) (flow, error) {
 				}
 			}
 		}
+	case "ingest":
+		return r.ingest(s)
 	case "compact":
 		if s.A == "" || s.B == "" || cmpKey(s.A, s.B) >= 0 {
 			return flowGo, nil
@@ -634,6 +640,122 @@ func (r *runner) step(s Step) (flow, error) {
 		return flowGo, r.crashImages("mid-run crash image")
 	default:
 		return flowGo, fmt.Errorf("harness: unknown step kind %q", s.K)
+	}
+	return flowGo, nil
+}
+
+// ingest writes the step's tables as external sstables (directly on the
+// in-memory file system, no faults) and ingests them under the armed rules.
+// An ingestion does not make earlier unsynced commits durable (and may survive
+// a crash that loses them: the listed finding of C11), so the step only runs
+// while the whole history is durable - the generator puts a Sync commit or a
+// Flush in front of it. A successful Ingest is visible and durable; a failed
+// one must leave the state before or after it (then the case ends with the
+// recovery oracle, like an in-doubt commit).
+func (r *runner) ingest(s Step) (flow, error) {
+	var tables [][]dbm.Op
+	for _, t := range s.Tables {
+		seen := map[string]bool{}
+		var ops []dbm.Op
+		for _, o := range t {
+			if (o.K == "set" || o.K == "del") && o.A != "" && !seen[o.A] {
+				seen[o.A] = true
+				ops = append(ops, o)
+			}
+		}
+		if len(ops) > 0 {
+			tables = append(tables, ops)
+		}
+	}
+	// the tables of one ingestion must not overlap
+	sort.Slice(tables, func(i, j int) bool { return cmpKey(tables[i][0].A, tables[j][0].A) < 0 })
+	for i := range tables {
+		sort.SliceStable(tables[i], func(a, b int) bool { return cmpKey(tables[i][a].A, tables[i][b].A) < 0 })
+	}
+	for i := 1; i < len(tables); i++ {
+		prev := tables[i-1]
+		if cmpKey(prev[len(prev)-1].A, tables[i][0].A) >= 0 {
+			tables = tables[:i]
+			break
+		}
+	}
+	db, lg := r.db, r.lg
+	// A,B: excise span (IngestAndExcise; DB.Excise when there is no table)
+	exA, exB := "", ""
+	if s.A != "" && s.B != "" && cmpKey(s.A, s.B) < 0 && db.FormatMajorVersion() >= pebble.FormatVirtualSSTables {
+		exA, exB = s.A, s.B
+	}
+	if len(tables) == 0 && exA == "" {
+		return flowGo, nil
+	}
+	if r.durable != len(r.versions)-1 {
+		r.C["ingests-skipped-undurable-tail"]++
+		return flowGo, nil
+	}
+	_ = r.mem.MkdirAll("ext", 0o755)
+	var paths []string
+	for _, t := range tables {
+		r.extN++
+		path := fmt.Sprintf("ext/%06d.sst", r.extN)
+		wopts := r.opts.MakeWriterOptions(0, db.FormatMajorVersion().MaxTableFormat())
+		if err := dbm.WriteSST(r.mem, path, wopts, t); err != nil {
+			return flowGo, fmt.Errorf("%s: harness: writing the external table: %v", r.where(), err)
+		}
+		paths = append(paths, path)
+	}
+	next := r.latest().ApplyIngest(tables, exA, exB)
+	r.pending = next
+	firedBefore := r.inj.firedTotal()
+	err, st, detail := call(lg, func() error {
+		switch span := (pebble.KeyRange{Start: []byte(exA), End: []byte(exB)}); {
+		case exA == "":
+			return db.Ingest(context.Background(), paths)
+		case len(paths) == 0:
+			return db.Excise(context.Background(), span)
+		default:
+			_, err := db.IngestAndExcise(context.Background(), paths, nil, nil, span)
+			return err
+		}
+	})
+	if exA != "" {
+		r.label("excise")
+		r.C["excises"]++
+	}
+	if fl, verr := r.after(st, detail, "Ingest"); fl != flowGo || verr != nil {
+		return fl, verr
+	}
+	r.C["ingests"]++
+	if err != nil {
+		if verr := r.fgError("Ingest", err); verr != nil {
+			return flowGo, verr
+		}
+		r.label("ingest-error")
+		got, fl, verr := r.dump()
+		if fl != flowGo || verr != nil {
+			return fl, verr
+		}
+		if !got.Equal(r.latest()) && !got.Equal(next) {
+			return flowGo, fmt.Errorf("%s: after the failed Ingest (%v) the visible state is neither the state before nor the state after it:%s",
+				r.where(), err, describeDiff(got, next))
+		}
+		r.gate.freeze("abandoned")
+		return flowCrashed, nil
+	}
+	r.versions = append(r.versions, next)
+	r.pending = nil
+	r.durable = len(r.versions) - 1
+	r.C["ingests-acked"]++
+	r.label("ingest")
+	if r.inj.firedTotal() > firedBefore {
+		r.label("ingest-acked-with-fault-during")
+		// the placement decision was taken while reads failed: the visible state
+		// and the level invariants must hold right now
+		if fl, verr := r.verifyAlive("right after an Ingest during which a fault fired"); fl != flowGo || verr != nil {
+			return fl, verr
+		}
+		if err := r.crashImagesSurv("crash image right after an acknowledged Ingest", []int{0}); err != nil {
+			return flowGo, err
+		}
 	}
 	return flowGo, nil
 }
